@@ -162,7 +162,7 @@ func judge(out *caseOut, sc *script, ho *histOut) {
 	}
 	w := map[string]any{"engine": engineName(sc.Engine), "script": sc, "history": lines(ho.lops)}
 	// a defect a single client can trigger is named by its minimal sequential script
-	s := seqOfHistory(sc.Engine, ho.lops)
+	s := seqOfHistory(sc.Engine, sc.CD, ho.lops)
 	if sr := replaySeq(s); sr.div != nil {
 		ms, mr := shrink(s, sr.div)
 		if mr.div != nil {
@@ -364,9 +364,13 @@ func run(c *core.Ctx) int {
 		if mode == "race" && raceRes == nil {
 			continue
 		}
-		if n := c.DistinctN("op_kinds_" + mode); n < int(nKinds) {
+		want := int(nCoreKinds)
+		if mode == "seq" {
+			want = int(nKinds)
+		}
+		if n := c.DistinctN("op_kinds_" + mode); n < want {
 			c.Inconclusive("operation-kind-never-run:" + mode)
-			broken = fmt.Sprintf("only %d of %d operation kinds ran in mode %s", n, nKinds, mode)
+			broken = fmt.Sprintf("only %d of %d operation kinds ran in mode %s", n, want, mode)
 		}
 	}
 	if c.Counter("verdict:linearizable") == 0 && c.Counter("verdict:illegal:sequentially-reproducible") == 0 {
